@@ -71,6 +71,8 @@ pub fn main() {
         "codec" => codec::main(rest),
         "route" => route::main(rest),
         "lb" => route::lb_main(rest),
+        "rules" => route::rules_main(rest),
+        "rules-stress" => route::rules_stress(rest),
         "parse" => milud::parse_main(rest),
         "types" => milud::types_main(rest),
         x => {
